@@ -5,7 +5,7 @@ anchored function into a new private helper - the behaviour is unchanged, but a 
 function no longer finds it.  This pass undoes exactly that: a function that
 
   * is NOT in the frozen inventory of the pinned tree (`sa/baseline_functions.json`, written by tools/gen_baseline_functions.py),
-  * is private (leading underscore) or nested, lives in the same module as its callers, is not recursive, is not a generator,
+  * lives in the same module as its callers (its definition stays; only same-module call sites are rewritten), is not recursive,
     takes plain parameters (no *args / **kwargs) and is small enough to be understood as one of the three forms below,
 
 is substituted at its call sites (inlining bound: two rounds, i.e. a new helper may call another new helper):
@@ -690,8 +690,8 @@ def inline_new_helpers(tree: ast.Module, rel: str) -> Tuple[ast.Module, List[str
         for q, fn, cls, outer in funcs:
             if q in base:
                 continue
-            if not (fn.name.startswith("_") or outer is not None) or fn.name.startswith("__"):
-                continue
+            if fn.name.startswith("__"):
+                continue  # dunder methods are protocol hooks, never "extracted helpers"
             if names_seen.get(fn.name, 0) != 1:
                 continue  # ambiguous short name
             deco = [ast.unparse(d) for d in fn.decorator_list]
